@@ -353,6 +353,15 @@ let dispatch (fn : string) (args : sx list) : sx =
         h := fst !cur;
         L [L tr; of_lines (hread !h O)]) (to_list (fun x -> x) runs) in
     L out
+  (* Format *)
+  | "n_digits_of", [n] -> of_nat (n_digits_of (to_nat n))
+  | "format_src", [parts; linenos; want; offset; prefix; partnos; lineno] ->
+    of_str (format_src (to_list to_part parts) (to_bool linenos) (to_bool want) (to_bool offset) (to_bool prefix) (to_bool partnos) (to_nat lineno))
+  | "dump_module", [es] ->
+    let to_de = function
+      | L [fnm; node; hdr; parts] -> { de_func_name = to_str fnm; de_node = to_str node; de_header = to_lines hdr; de_parts = to_list to_part parts }
+      | _ -> raise (Bad "dump example") in
+    of_str (dump_module (to_list to_de es))
   | _ -> raise (Bad ("unknown function " ^ fn))
 
 
